@@ -6,6 +6,8 @@
 -/
 import YowsupVerif.Gen.NibblesSrc
 import YowsupVerif.Model.Coder
+import YowsupVerif.Lemmas.CoderDec
+import YowsupVerif.Lemmas.CoderEnc
 namespace Yow.Coder
 open Yow.Gen.NibSrc
 
@@ -208,6 +210,16 @@ theorem C01_source_write_then_read (v : Nat) (rest : Bytes) :
   constructor
   · intro h; simp [dec_readInt8, writeInt8]; omega
   · intro h; simp [dec_readInt16, writeInt16, Nat.shiftLeft_eq]; omega
+
+/-- The list header of the CURRENT source survives its own round trip: for every size the format has, what the translated `writeListStart`
+    appends is a token followed by size bytes from which the translated `readListSize` returns exactly that size, leaving untouched whatever
+    follows. -/
+theorem C01_source_list_header_roundtrip (k : Nat) (hk : k < 65536) (more : Bytes) :
+    ∃ h bh, enc_writeListStart k = .wrote (h :: bh) ∧ dec_readListSize h (bh ++ more) = .ret k more := by
+  obtain ⟨h, bh, hw, he, _⟩ := writeListStart_EncList hk
+  refine ⟨h, bh, ?_, ?_⟩
+  · rw [(C01_source_writeListStart_is_the_model k).1 hk, hw]
+  · rw [C01_source_readListSize_is_the_model, readListSize_of_EncList he more]; rfl
 
 /-- non-vacuity: runs of the translated code -/
 example : enc_packByte 251 70 = .ret 15 ∧ dec_unpackByte 251 15 = .ret 70 ∧ enc_packByte 255 46 = .ret 11 ∧ dec_unpackByte 255 11 = .ret 46 ∧
